@@ -150,7 +150,8 @@ fn to_deltas(code_map: &CodeMap, semtoks: Vec<SemTok>) -> Vec<SemanticToken> {
                 let length = if line == location.end.line {
                     location.end.column
                 } else {
-                    location.file.source_line(line).len()
+                    // columns count characters, not bytes
+                    location.file.source_line(line).chars().count()
                 };
 
                 let begin = LineCol { line, column };
